@@ -6,6 +6,7 @@ import (
 	"github.com/llir/llvm/internal/enc"
 	"github.com/llir/llvm/ir"
 	"github.com/llir/llvm/ir/constant"
+	"github.com/llir/llvm/ir/metadata"
 	"github.com/llir/llvm/ir/types"
 )
 
@@ -263,4 +264,132 @@ func VfC11_ParseImpliedComdat() {
 		}
 		vfAssert("C11.implied-comdat.is-definition", found)
 	}
+}
+
+// hC11Bytes: n symbolic bytes, each forked into one of the lexical classes
+// that matter to a string decoder: quote, backslash, hexadecimal digit, other
+// printable ASCII, anything else (NUL excluded where the site cannot hold it).
+func hC11Bytes(name string, n int) []byte {
+	s := vfBytes(name, n)
+	for i := 0; i < n; i++ {
+		b := s[i]
+		hexd := vfOr(vfAnd(b >= '0', b <= '9'), vfOr(vfAnd(b >= 'A', b <= 'F'), vfAnd(b >= 'a', b <= 'f')))
+		printable := vfAnd(b >= 0x20, b <= 0x7E)
+		switch vfChoice(name+"cls"+string(rune('0'+i)), 5) {
+		case 0:
+			vfAssume(b == '"')
+		case 1:
+			vfAssume(b == '\\')
+		case 2:
+			vfAssume(hexd)
+		case 3:
+			vfAssume(vfAnd(printable, vfNot(vfOr(hexd, vfOr(b == '"', b == '\\')))))
+		default:
+			vfAssume(vfAnd(vfNot(printable), b != 0))
+		}
+	}
+	return s
+}
+
+// VfC11_StringSites: every site where the library prints a string literal with
+// its own quoting helper (ir: section, partition, gc, module asm, target
+// triple, data layout, attribute strings and pairs, inline asm; ir/metadata:
+// metadata strings and the string fields of specialised nodes): the string put
+// in is the string read back after print and parse.
+//
+//vf:unwind 600
+//vf:shards 16
+func VfC11_StringSites() {
+	site := vfChoice("site", 11)
+	n := vfLen("n", 1, hC11N())
+	s := string(hC11Bytes("s", n))
+	m := ir.NewModule()
+	g := m.NewGlobalDef("g", constant.NewInt(types.I32, 0))
+	f := m.NewFunc("f", types.Void)
+	b := f.NewBlock("entry")
+	var sp *metadata.DISubprogram
+	var fl *metadata.DIFile
+	switch site {
+	case 0:
+		m.MetadataDefs = append(m.MetadataDefs, &metadata.Tuple{MetadataID: 0, Fields: []metadata.Field{&metadata.String{Value: s}}})
+	case 1:
+		fl = &metadata.DIFile{MetadataID: 0, Filename: s, Directory: "d" + s}
+		m.MetadataDefs = append(m.MetadataDefs, fl)
+	case 2:
+		g.Section = s
+	case 3:
+		f.GC = s
+	case 4:
+		m.ModuleAsms = []string{s}
+	case 5:
+		m.TargetTriple = s
+		m.DataLayout = s + "e"
+	case 6:
+		f.FuncAttrs = []ir.FuncAttribute{ir.AttrString(s), ir.AttrPair{Key: "k" + s, Value: s}}
+	case 7:
+		g.Partition = s
+	case 8:
+		ia := ir.NewInlineAsm(types.NewPointer(types.NewFunc(types.Void)), s, "c"+s)
+		b.NewCall(ia)
+	case 9:
+		sp = &metadata.DISubprogram{MetadataID: 0, Distinct: true, Name: s, LinkageName: "l" + s}
+		m.MetadataDefs = append(m.MetadataDefs, sp)
+	default:
+		f.Section = s
+	}
+	b.NewRet(nil)
+	y := m.String()
+	m2, err := ParseString("t.ll", y)
+	vfReach("C11.string-sites")
+	vfObserveStr("printed", y)
+	vfAssert("C11.sites.accepted", err == nil)
+	if err != nil {
+		return
+	}
+	g2, f2 := m2.Globals[0], m2.Funcs[0]
+	ok := false
+	switch site {
+	case 0:
+		if t, isT := m2.MetadataDefs[0].(*metadata.Tuple); isT && len(t.Fields) == 1 {
+			if str, isS := t.Fields[0].(*metadata.String); isS {
+				ok = str.Value == s
+			}
+		}
+	case 1:
+		if d, isD := m2.MetadataDefs[0].(*metadata.DIFile); isD {
+			ok = vfAnd(d.Filename == s, d.Directory == "d"+s)
+		}
+	case 2:
+		ok = g2.Section == s
+	case 3:
+		ok = f2.GC == s
+	case 4:
+		ok = vfAnd(len(m2.ModuleAsms) == 1, m2.ModuleAsms[0] == s)
+	case 5:
+		ok = vfAnd(m2.TargetTriple == s, m2.DataLayout == s+"e")
+	case 6:
+		if len(f2.FuncAttrs) == 2 {
+			as, isS := f2.FuncAttrs[0].(ir.AttrString)
+			ap, isP := f2.FuncAttrs[1].(ir.AttrPair)
+			if isS && isP {
+				ok = vfAnd(string(as) == s, vfAnd(ap.Key == "k"+s, ap.Value == s))
+			}
+		}
+	case 7:
+		ok = g2.Partition == s
+	case 8:
+		if c, isC := f2.Blocks[0].Insts[0].(*ir.InstCall); isC {
+			if ia, isA := c.Callee.(*ir.InlineAsm); isA {
+				ok = vfAnd(ia.Asm == s, ia.Constraint == "c"+s)
+			}
+		}
+	case 9:
+		if d, isD := m2.MetadataDefs[0].(*metadata.DISubprogram); isD {
+			ok = vfAnd(d.Name == s, d.LinkageName == "l"+s)
+		}
+	default:
+		ok = f2.Section == s
+	}
+	vfAssert("C11.sites.roundtrip", ok)
+	vfAssert("C11.sites.print-fixpoint", m2.String() == y)
 }
